@@ -565,10 +565,88 @@ def extract_case(members, tag, depth=3):
                 any(('/' in m or '.' in m) for m in members), desc, canon='paths')
 
 
+def extract_links_case(members, tag, depth=3):
+    """An archive with link / directory members: `members` is a list of dicts {'name', 'type' in file|sym|hard|dir,
+    'target'}. Everything that exists under the scratch root after the extraction is observed without following
+    links: a regular file found outside the destination folder is a failing input."""
+    import sknetwork.data  # noqa: F401
+    L = sys.modules['sknetwork.data.load']
+    root = os.path.realpath(os.path.join(scratch(), 'xl_%s' % tag))
+    shutil.rmtree(root, ignore_errors=True)
+    dest = os.path.join(root, *(['lvl%d' % i for i in range(depth - 1)] + ['data']))
+    os.makedirs(dest)
+    os.makedirs(os.path.join(root, 'outside'))
+
+    def sub(x):
+        return x.replace('{ROOT}', root).replace('{DEST}', dest)
+    buf = io.BytesIO()
+    with tarfile.open(fileobj=buf, mode='w') as tar:
+        for i, m in enumerate(members):
+            ti = tarfile.TarInfo(name=sub(m['name']))
+            kind = m.get('type', 'file')
+            if kind == 'file':
+                data = ('member %d' % i).encode()
+                ti.size = len(data)
+                tar.addfile(ti, io.BytesIO(data))
+                continue
+            if kind == 'sym':
+                ti.type = tarfile.SYMTYPE
+                ti.linkname = sub(m['target'])
+            elif kind == 'hard':
+                ti.type = tarfile.LNKTYPE
+                ti.linkname = sub(m['target'])
+            else:
+                ti.type = tarfile.DIRTYPE
+                ti.mode = 0o755
+            tar.addfile(ti)
+    buf.seek(0)
+    with warnings.catch_warnings():
+        warnings.simplefilter('ignore')
+        with tarfile.open(fileobj=buf, mode='r') as tar:
+            try:
+                L.safe_extract(tar, dest)
+                impl = 'ok accepted'
+            except Exception as e:     # noqa: BLE001
+                if type(e) is Exception:           # safe_extract's own refusal is a bare Exception
+                    impl = 'err Exception'
+                else:
+                    impl = 'ok accepted'           # the member check passed; tarfile / the OS refused a member
+    files = []
+    for dp, dn, fn in os.walk(root, followlinks=False):
+        for f in fn:
+            fp = os.path.join(dp, f)
+            if not os.path.islink(fp):
+                files.append(fp)          # a regular file, at its real location
+    files.sort()
+    names = [sub(m['name']) for m in members]
+    run = 'c18.extract_check %s %s %s' % (enc_str(root), enc_str(dest), enc_strs(names))
+    spec = 'c18.spec_inside %s %s' % (enc_str(dest), enc_strs(files))
+    sig = {'entry': 'safe_extract', 'links': sorted({m.get('type', 'file') for m in members} - {'file'})}
+    desc = {'f': 'safe_extract_links', 'members': members, 'depth': depth}
+    shutil.rmtree(root, ignore_errors=True)
+    return Case(('extract-links', json.dumps(members, sort_keys=True), depth), sig, run, impl, spec, True, desc)
+
+
+LINK_ARCHIVES = [
+    [{'name': 'lnk', 'type': 'sym', 'target': '{ROOT}/outside'}, {'name': 'lnk/evil.txt'}],
+    [{'name': 'l2', 'type': 'sym', 'target': '..'}, {'name': 'l2/evil2.txt'}],
+    [{'name': 'x', 'type': 'sym', 'target': '.'}, {'name': 'x/../evil3.txt'}],
+    [{'name': 'sub', 'type': 'dir'}, {'name': 'sub/l', 'type': 'sym', 'target': '../..'}, {'name': 'sub/l/evil4.txt'}],
+    [{'name': 'in', 'type': 'sym', 'target': 'real'}, {'name': 'real', 'type': 'dir'}, {'name': 'in/ok.txt'}],
+    [{'name': 'd', 'type': 'dir'}, {'name': 'd/f.txt'}, {'name': 'h', 'type': 'hard', 'target': 'd/f.txt'}],
+    [{'name': 'h', 'type': 'hard', 'target': '{ROOT}/outside/nothing'}],
+    [{'name': 'l', 'type': 'sym', 'target': '{DEST}'}, {'name': 'l/inside.txt'}],
+    [{'name': 'a', 'type': 'sym', 'target': 'b'}, {'name': 'b', 'type': 'sym', 'target': '{ROOT}/outside'}, {'name': 'a/evil5.txt'}],
+    [{'name': 'l', 'type': 'sym', 'target': '../../outside'}, {'name': 'l/evil6.txt'}],
+    [{'name': 'plain.txt'}, {'name': 'dir', 'type': 'dir'}, {'name': 'dir/inner.npz'}],
+]
+
+
 # ------------------------------------------------------------------------------------------------
 # generators
 # ------------------------------------------------------------------------------------------------
 INT_IDS = [0, 1, 2]
+BIG_IDS = [2 ** 53, 2 ** 53 + 1, 2 ** 53 + 2, 2 ** 62 + 1, 2 ** 62 + 3, -(2 ** 53 + 1), 10 ** 17 + 1, 10 ** 17 + 2]
 STR_IDS = ['a', 'b', 'ab']
 WEIGHTS = [Fraction(1), Fraction(2), Fraction(3), Fraction(0), Fraction(-1), Fraction(1, 2), Fraction(5, 4)]
 
@@ -588,7 +666,11 @@ def rand_flags(rng):
 
 
 def id_pool(rng):
-    kind = rng.choice(['int', 'int', 'gap', 'neg', 'str', 'str', 'mixed', 'numstr', 'strnum'])
+    kind = rng.choice(['int', 'int', 'gap', 'neg', 'str', 'str', 'mixed', 'numstr', 'strnum', 'big', 'bigstr'])
+    if kind in ('big', 'bigstr'):
+        # 64-bit identifiers beyond the integers a float64 represents exactly
+        pool = rng.sample(BIG_IDS, rng.randint(2, 4)) + [rng.randint(0, 3)]
+        return kind, (pool if kind == 'big' else [str(x) for x in pool])
     if kind == 'int':
         return kind, list(range(rng.randint(2, 5)))
     if kind == 'gap':
@@ -660,10 +742,12 @@ def gen_edge_cases(ctx, out, earlies):
         wm = rng.choice(['none', 'small', 'any', 'any'])
         edges = rand_edges(rng, pool, k, wm)
         fl = rand_flags(rng)
+        if kind in ('big', 'bigstr'):
+            fl['reindex'] = True          # without reindexing the matrix would have 2^53 rows
         via = 'list'
         style = 0
-        if rng.random() < 0.2 and kind != 'mixed':
-            via = 'array'
+        if rng.random() < 0.2 and kind != 'mixed' and not (kind == 'big' and wm != 'none'):
+            via = 'array'           # (an ndarray of big integers and float weights is a float array: not exact)
         elif wm != 'none' and rng.random() < 0.15:
             style = rng.choice([1, 2]) if kind in ('str', 'strnum') else 1
         c, e = edge_case(edges, fl, via, style)
@@ -694,6 +778,8 @@ def gen_edge_cases(ctx, out, earlies):
             c, e = adj_case(adj, fl, False)
         else:
             kind, pool = id_pool(rng)
+            if kind in ('big', 'bigstr'):
+                fl['reindex'] = True
             keys = rng.sample(pool, rng.randint(1, len(pool)))
             adj = [(k, [rng.choice(pool) for _ in range(rng.randint(0, 3))]) for k in keys]
             c, e = adj_case(adj, fl, True)
@@ -716,7 +802,9 @@ def gen_csv_cases(ctx, out, earlies):
     for _ in range(n_cases):
         d = rng.choice(delims)
         numeric = rng.random() < 0.5
-        if numeric:
+        if numeric and rng.random() < 0.15:
+            pool = [x for x in rng.sample(BIG_IDS, 3) if x > 0] + [rng.randint(0, 5)]
+        elif numeric:
             pool = sorted(rng.sample(range(0, 9), rng.randint(2, 5)))
         else:
             alphabet = 'abcxyAB'
@@ -739,6 +827,8 @@ def gen_csv_cases(ctx, out, earlies):
         elif how == 'sep':
             args['sep'] = d
         fl = rand_flags(rng)
+        if any(isinstance(x, int) and abs(x) > 10 ** 6 for x in pool):
+            fl['reindex'] = True
         # the rows as from_edge_list would receive them from csv.reader: strings
         sedges = [(str(a), str(b), w) for a, b, w in edges]
         c, e = csv_case(text, lines, args, fl, sedges, tag())
@@ -892,6 +982,10 @@ def gen_path_cases(ctx, out, earlies):
         k += 1
         out.append(extract_case([m], 's%d' % k))
         ctx.count('extract:single-member')
+    for i, ms in enumerate(LINK_ARCHIVES):
+        for depth in (2, 3):
+            out.append(extract_links_case(ms, 'l%d_%d' % (i, depth), depth))
+            ctx.count('extract:link-members')
     for _ in range(60 if quick else 1500):
         k += 1
         ms = [rng.choice(HOSTILE[-8:] + ['f%d' % i for i in range(4)]) for _ in range(rng.randint(1, 4))]
@@ -971,6 +1065,8 @@ def cases_of_desc(d, rng=None):
         return [within_case(cwd, d['directory'], d['target'])], []
     if f == 'safe_extract':
         return [extract_case(d['members'], 'replay', d.get('depth', 3))], []
+    if f == 'safe_extract_links':
+        return [extract_links_case(d['members'], 'replay', d.get('depth', 3))], []
     if f == 'from_graphml':
         from harness import c18_graphml
         c, e = c18_graphml.graphml_case(d['doc'], 'replay')
